@@ -32,6 +32,7 @@ type Writer struct {
 	Oracles   int
 	OracleEvals int
 	Samples   []interface{}
+	Extra     string // further vernacular appended to every shard (e.g. a second Print)
 }
 
 func New(dir, imports, caseType string, shard int) *Writer {
@@ -123,6 +124,7 @@ func (w *Writer) Close() {
 		}
 		sb.WriteString("].\n")
 		sb.WriteString("Definition M := Eval vm_compute in mismatches cases.\nPrint M.\n")
+		sb.WriteString(w.Extra)
 		if err := os.WriteFile(filepath.Join(w.Dir, fmt.Sprintf("cases_%d.v", s)), []byte(sb.String()), 0o644); err != nil {
 			panic(err)
 		}
